@@ -10,7 +10,7 @@
 //!    (built to be well-typed), except files in a `fail_check` directory or whose name contains
 //!    `-ill-`: tag `ill`;  /repo/testsuite/fail_check is always included;
 //!  * `n` random well-typed programs from the generator (`gen_fun`, when linked in): tag `wt`;
-//!  * for every `wt` program that the real checker accepts: its single ill-typed mutations, 16 classes
+//!  * for every `wt` program that the real checker accepts: its single ill-typed mutations, 16+2 classes
 //!    (see `CLASSES`), each applied at every applicable site of the parsed AST, one at a time
 //!    (corpus programs: all sites; random programs: at most `SITES_PER_CLASS` sites per class, drawn
 //!    with the PRNG).  The tag is the class name; the name is `<file>#<class>@<site>`.
@@ -30,10 +30,12 @@ use std::collections::HashMap;
 use std::panic::AssertUnwindSafe;
 use std::rc::Rc;
 
-pub const CLASSES: [&str; 16] = [
+pub const CLASSES: [&str; 18] = [
     "arg-count", "arg-type", "unbound-var", "unbound-covar", "missing-clause", "extra-clause",
     "dup-clause", "clause-binders", "type-args", "prd-as-cns", "cns-as-prd", "dup-decl", "dup-xtor",
     "unknown-type", "unknown-xtor", "ret-type",
+    // two more, for the error variants the 16 classes of the property do not reach
+    "dup-param", "new-for-data",
 ];
 const SITES_PER_CLASS: usize = 3;
 
@@ -170,6 +172,14 @@ impl<'a> W<'a> {
                     }
                 }
                 continue; // a covariable argument is not a term position
+            }
+            if self.is("new-for-data") {
+                if let Some(Ty::Decl { name, .. }) = b.map(|b| &b.ty) {
+                    if self.sigs.data.iter().any(|(n, _)| n == name) && self.hit() {
+                        *a = New { span: dummy_span(), clauses: vec![], ty: None }.into();
+                        return;
+                    }
+                }
             }
             if self.is("arg-type") {
                 match b.map(|b| &b.ty) {
@@ -329,6 +339,9 @@ impl<'a> W<'a> {
                             Ty::I64 { .. } => { if let Some(n) = &self.sigs.mono_type { if self.hit() { *ret_ty = Ty::mk_decl(n, TypeArgs::mk(vec![])); return; } } }
                             Ty::Decl { .. } => { if self.hit() { *ret_ty = Ty::mk_i64(); return; } }
                         }
+                    }
+                    if self.is("dup-param") {
+                        for i in 0..context.bindings.len() { if self.hit() { let b = context.bindings[i].clone(); context.bindings.push(b); return; } }
                     }
                     self.ctx(context);
                     if self.done { return; }
